@@ -347,6 +347,9 @@ def edit_constant(parameterized):
     updated = []
     for pname, pobj in (kls_params | inst_params).items():
         if pobj.constant:
+            # An instance unlocks its own Parameter object, not the one
+            # it shares with the class and the other instances
+            pobj = parameterized.param[pname]
             pobj.constant = False
             updated.append((pname, pobj))
     try:
